@@ -64,6 +64,22 @@ Theorem example_creates_missing files fin (h : list op) (s0 : fs) (p : path) :
 Proof. exact (example_creates_missing_l files fin h s0 p). Qed.
 Print Assumptions example_creates_missing.
 
+(* a file that is absent before `example` (never created, or deleted by the user) is created
+   with exactly the bytes example writes into an empty directory: the outcome does not
+   depend on prior runs or on which other example files exist *)
+Theorem example_independent_of_history files fin (h : list op) (s0 : fs) (p : path) :
+  run files fin h s0 p = None ->
+  content_at (run files fin (h ++ [Run Example]) s0) p = content_at (run files fin [Run Example] empty) p.
+Proof. exact (example_independent_of_history_l files fin h s0 p). Qed.
+Print Assumptions example_independent_of_history.
+
+(* the cleanup before gen removes EVERY sub-directory of gen/, whatever its name, and
+   nothing else *)
+Theorem cleanup_removes_every_subdir (s : fs) (p : path) :
+  cleanup s p = if in_gen_subdir p then None else s p.
+Proof. exact (cleanup_spec s p). Qed.
+Print Assumptions cleanup_removes_every_subdir.
+
 (* Why the hypotheses are there. The unrestricted statements are false of File.Render: *)
 
 (* a gen file directly in gen/ (not in a sub-directory) is appended to by the second gen *)
